@@ -525,11 +525,11 @@ def kbfs(cap, max_empty, max_depth, budget):
 
 
 def fam_kbfs(tier):
-    caps = range(0, 4) if tier == "quick" else range(0, 6)
+    caps = range(0, 5) if tier == "quick" else range(0, 7)
     ops = []
     info = []
     for cap in caps:
-        edges, nstates, complete, ops_of = kbfs(cap, 2, 7 if tier == "quick" else 9, 6000 if tier == "quick" else 60000)
+        edges, nstates, complete, ops_of = kbfs(cap, 2, 9 if tier == "quick" else 11, 40000 if tier == "quick" else 400000)
         for e in edges:
             o = ops_of(e)
             keys = sorted({k for k, _ in e})
